@@ -209,3 +209,42 @@ func VH_C12_repair_roundtrip() {
 	}
 	vObserve("nout", len(out))
 }
+
+//verif:harness prop=C12 quick=3 thorough=3 merge=concrete timeout=1200
+//verif:bounds two gene features that abut with a 3'-partial end meeting a 5'-partial start (symbolic coordinates), qualifiers differing: one /note value of 2 symbolic printable bytes each | /note="a b" against /note="a" /note="b" (a, b symbolic bytes) | one 7-byte value against two qualifiers: merged iff the qualifier lists are equal
+func VH_C12_repair_qualifiers() {
+	sh := vShard(3)
+	s := vIntIn("s", 0, 50)
+	m := vIntIn("m", 1, 60)
+	e := vIntIn("e", 2, 70)
+	vAssume(vAnd(s < m, m < e))
+	var p0, p1 Props
+	equal := false
+	switch sh {
+	case 0:
+		v0, v1 := vBytesIn("v0", 2, 32, 126), vBytesIn("v1", 2, 32, 126)
+		p0, p1 = Props{[]string{"note", string(v0)}}, Props{[]string{"note", string(v1)}}
+		equal = vAnd(v0[0] == v1[0], v0[1] == v1[1])
+	case 1:
+		a, b := vBytesIn("a", 1, 32, 126), vBytesIn("b", 1, 32, 126)
+		p0 = Props{[]string{"note", string(a) + " " + string(b)}}
+		p1 = Props{[]string{"note", string(a), string(b)}}
+	default:
+		v := vBytesIn("v", 7, 32, 126)
+		p0 = Props{[]string{"n", string(v)}}
+		p1 = Props{[]string{"n", "x"}, []string{"m", "y"}}
+	}
+	ff := []Feature{
+		{"gene", PartialRange(s, m, Partial{false, true}), p0},
+		{"gene", PartialRange(m, e, Partial{true, false}), p1},
+	}
+	var out []Feature
+	p := vPanics(func() { out = Repair(ff) })
+	vAssert("no-panic", !p)
+	if p {
+		return
+	}
+	vCover("repaired")
+	vAssert("merged-iff-qualifiers-equal", (len(out) == 1) == equal)
+	vObserve("nout", len(out))
+}
